@@ -199,6 +199,7 @@ PROPS['C26'] = {
     'level': 'proof',
     'level_text': 'Complete Kani harness on the real RestrictedResolver::http_resolve with is_uri_allowed replaced by an arbitrary Boolean and a counting inner resolver: '
                   'the inner resolver is called exactly once iff (no allow-list or the URI is allowed), otherwise never, and the error is UriDisallowed. '
+                  'Verus on the real bodies of Context::build_default_sync_resolver / build_default_async_resolver: the stack built from settings with an allow-list keeps that layer beneath the redirect follower, so every hop is checked. '
                   'Pattern matching (is_uri_allowed / HostPattern) is a bounded-exhaustive stand-in, not counted as proved.',
     'level_note': 'is_uri_allowed stubbed in the enforcement proof; http::Uri is intractable in CBMC so matching is checked natively over a small alphabet. Resolver stacking: Verus on the real bodies of Context::build_default_sync_resolver / build_default_async_resolver and the three constructors they call, over a ghost shape of the stack: with an allow-list configured the allow-list layer has no redirect follower beneath it, so every hop reaching the client has passed it (Arc::new + unsized coercion replaced by an opaque shape-preserving function: declared subst).',
     'technique': TECH_K + ' (enforcement: complete); ' + TECH_V + ' (stack shape built from settings); ' + TECH_B + ' (host pattern matching)',
